@@ -32,6 +32,8 @@ func main() {
 	frz := flag.String("freeze", "", "freeze a picks file into a JSON table (printed on stdout)")
 	guards := flag.String("guards", "", "list guards (line: text) of the given function specs, compact")
 	gen := flag.String("gen", "", "print FnSpec skeletons for the given function specs (comma separated); -calls filters effects")
+	inlStats := flag.Bool("inlstats", false, "development: list, per function, the helpers inlined into it")
+	ssaOut := flag.String("ssa", "", "development: print the normalised SSA of the given function specs")
 	noEv := flag.Bool("no-evidence", false, "do not write evidence files")
 	flag.Parse()
 	if t := os.Getenv("VERIF_TIER"); t != "" && *tier == "" {
@@ -143,6 +145,24 @@ func main() {
 	if *gen != "" {
 		for _, spec := range strings.Split(*gen, ",") {
 			genSpec(p, spec, *dumpCalls)
+		}
+		return
+	}
+	if *inlStats && p.inl != nil {
+		var names []string
+		for fn, l := range p.inl.into {
+			names = append(names, funcName(fn)+" <- "+strings.Join(l, ", "))
+		}
+		sort.Strings(names)
+		for _, n := range names {
+			fmt.Println(n)
+		}
+		fmt.Printf("%d call sites inlined, %d continuations threaded\n", p.inl.nSites, p.inl.nThreaded)
+		return
+	}
+	if *ssaOut != "" {
+		for _, spec := range strings.Split(*ssaOut, ",") {
+			p.Func(spec).WriteTo(os.Stdout)
 		}
 		return
 	}
